@@ -25,7 +25,8 @@ func init() {
 			runC18VarKinds(c)
 			runFieldIdentity(c, "C18-FIELDID")
 			runFacadeForward(c, "C18-FORWARD")
-			base(c, "DECLARED", "STATE", "ALIAS", "TEXT", "RULESRC", "EXPORT", "ZEROSKIP")
+			runLiveSettings(c, "C18-LIVE")
+			base(c, "DECLARED", "STATE", "ALIAS", "TEXT", "MAT", "RULESRC", "EXPORT", "ZEROSKIP")
 			importRules(c, "C03", runC03, "C18-REQUIRED", "the built-in required has the same notion of 'missing' in every walker: a clause exactly when the value is zero or an empty collection (rule C03-REQ) — a walker that also treats e.g. blank strings as missing disagrees with its siblings on the same scalar", 4, ruleIn("C03-REQ"))
 			importRules(c, "C02", runC02Loop, "C18-LOOP", "every walker evaluates every rule item of a field: its rule loop leaves only through its header (rule C02-LOOP) — a walker that stops early at some item disagrees with its siblings on the rules after it", 4, nil)
 		},
@@ -258,6 +259,37 @@ func runC18(c *Ctx) {
 		c.Check(len(carried) == 0, "C18-URL", "(*valid.VUrl).validate", "own-text", urlPos, "key and value are cut from the parameter's own text", uniqJoin(carried, 2))
 		c.Check(len(decBad) == 0, "C18-URL", "(*valid.VUrl).validate", "query-decoding", urlPos, "values are query-decoded (url.QueryUnescape)", uniqJoin(decBad, 1))
 		c.Check(len(lossy) == 0, "C18-URL", "(*valid.VUrl).validate", "first-equals", urlPos, "value keeps everything after the first '='", uniqJoin(lossy, 1))
+	// the query starts at the FIRST '?': a value may contain '?' itself (a nested URL, "what?")
+	if ufn := p.Method("valid", "VUrl", "validate"); ufn != nil {
+		var qbad []string
+		firsts := 0
+		for _, b := range ufn.Blocks {
+			for _, ins := range b.Instrs {
+				call, ok := ins.(*ssa.Call)
+				if !ok || len(call.Call.Args) < 2 {
+					continue
+				}
+				nm := calleeName(&call.Call)
+				isQ := false
+				if s, ok := constString(call.Call.Args[1]); ok && s == "?" {
+					isQ = true
+				}
+				if k, ok := constInt(call.Call.Args[1]); ok && k == '?' {
+					isQ = true
+				}
+				if !isQ || !strings.HasPrefix(nm, "strings.") {
+					continue
+				}
+				if strings.HasPrefix(nm, "strings.LastIndex") {
+					qbad = append(qbad, p.Pos(call.Pos())+": the query is cut at the LAST '?' ("+nm+"): a parameter value that contains '?' moves the start of the query into the value, the parameters before it are reported missing or never judged")
+				} else {
+					firsts++
+				}
+			}
+		}
+		c.Sites++
+		c.Check(len(qbad) == 0 && firsts > 0, "C18-URL", "(*valid.VUrl).validate", "first-question-mark", urlPos, "query cut at the first '?'", uniqJoin(append(qbad, map[bool]string{true: "", false: "no search for '?' found"}[firsts > 0]), 2))
+	}
 		c.Check(len(decodeFirst) == 0, "C18-URL", "(*valid.VUrl).validate", "decode-after-split", urlPos, "decoding does not precede splitting", uniqJoin(decodeFirst, 1))
 	}
 	// --- C18-IFACE (same construct as C03-IFACE, judged for this property)
